@@ -166,6 +166,16 @@ let run (cmd : string) (a : v) : v =
              (nat_of_int l, List.map (function L [I f; I w] -> (nat_of_int f, nat_of_int w) | _ -> failwith "asg") fl) | _ -> failwith "asg") (getl a) in
            vbool (neox_ok_b peers names work asg)
        | _ -> failwith "neox args")
+  | "bucket_run", L [I cap; L ops] ->
+      let op = function
+        | L [S "add"; I g; I k; I t; I n; I e; I d] ->
+            Add (nat_of_int g, { i_key = nat_of_int k; i_tid = nat_of_int t; i_numel = nat_of_int n; i_esize = nat_of_int e; i_dtype = nat_of_int d })
+        | L [S "flush"] -> Flush
+        | _ -> failwith "bop" in
+      let (st, em) = brun (nat_of_int cap) [] (List.map op ops) in
+      L [ vlist (fun b -> L [ vnat (match b with it :: _ -> it.i_key | [] -> O);
+                              vlist (fun (((t, o), n)) -> L [vnat t; vnat o; vnat n]) (offsets b O) ]) em;
+          vlist (fun (k, ob) -> L [vnat k; (match ob with None -> S "none" | Some b -> vlist (fun it -> vnat it.i_tid) b)]) st ]
   | _ -> failwith ("unknown command or bad argument: " ^ cmd)
 
 let () =
